@@ -9,6 +9,7 @@ from ..flow import ANY_EXC
 from ..model import AnalysisError, FuncInfo, Project, call_name, kwarg, walk_local
 from ..paths import PState, PathAnalysis, run_paths, subst_text
 from ..report import Report
+from ..roles import incoming_send_calls, send_end_of
 from . import _stdio
 
 NON_RAISING_ERRORS = {"replace", "ignore", "backslashreplace", "surrogateescape", "surrogatepass"}
@@ -178,11 +179,13 @@ def check(P: Project, R: Report) -> None:
     R.fn(rt.fq)
     mp = [p for p in rt.positional_params() if p != "self"][0]
 
+    NOTIFY = send_end_of(P, _stdio.client(P), "notifications")
+
     def ev(call, st, an2):
         nm = call_name(call)
-        if nm in ("self._notify_send.send_nowait", "self._notify_send.send"):
+        if nm in (f"self.{NOTIFY}.send_nowait", f"self.{NOTIFY}.send"):
             return "notify:" + subst_text(call.args[0], st)
-        if nm in ("self._incoming_send.send", "self._incoming_send.send_nowait"):
+        if nm in incoming_send_calls(P, _stdio.client(P)):
             return "main:" + subst_text(call.args[0], st)
         if nm.endswith((".start_soon", ".create_task", ".ensure_future", ".spawn")):
             return "spawn"
